@@ -32,12 +32,16 @@ def run_shard(spec):
             for n in names:
                 lines.append('    printf("Z %s %%d %%zu\\n", int(prophy::generated::%s::encoded_byte_size), sizeof(::%s));'
                              % (n, n, n))
+                if w.tinfo(n)[2] == S.FIXED_S:
+                    # a default-constructed object of a fixed type (optionals absent, first arms) must encode to that size
+                    lines.append('    { prophy::generated::%s x; printf("E %s %%zu %%zu\\n", x.encode().size(), x.get_byte_size()); }'
+                                 % (n, n))
             lines += ['    return 0;', '}']
             path = os.path.join(wd, 'consts.cpp')
             with open(path, 'w') as f:
                 f.write('\n'.join(lines) + '\n')
             binary = os.path.join(wd, 'consts')
-            cppdrv.compile_cpp([path], binary, [gen], sanitize=False, cxx='g++')
+            cppdrv.compile_cpp([path, os.path.join(gen, 'sch.ppf.cpp')], binary, [gen], sanitize=False, cxx='g++')
             p = subprocess.run([binary], stdout=subprocess.PIPE, stderr=subprocess.PIPE, timeout=120)
         except cppdrv.BuildFailed as e:
             acc.prereq({'stage': e.stage, 'error': str(e)[-1500:], 'schema': text[:1500]})
@@ -50,12 +54,25 @@ def run_shard(spec):
             compare_raw_layout(acc, PROP, wd, sch, w, names, tagmap, gen, compilers=('g++',), prefix='raw:')
         except cppdrv.BuildFailed as e:
             acc.prereq({'stage': 'raw layout ' + e.stage, 'error': str(e)[-800:]})
-        got = {}
+        got, enc = {}, {}
         for ln in p.stdout.decode().split('\n'):
             a = ln.split()
             if len(a) == 4 and a[0] == 'Z':
                 got[a[1]] = (int(a[2]), int(a[3]))
+            elif len(a) == 4 and a[0] == 'E':
+                enc[a[1]] = (int(a[2]), int(a[3]))
         from .c04 import layout_sig, KINDNAME
+        died_at = None
+        if p.returncode != 0:
+            # the printer died: in the encode of the first fixed type that has no 'E' line
+            missing = [n for n in names if n in got and w.tinfo(n)[2] == S.FIXED_S and n not in enc]
+            died_at = missing[0] if missing else None
+            if died_at:
+                sub = sch.closure(died_at)
+                acc.violation(PROP, 'cpp-encode-of-a-default-fixed-object-crashes',
+                              {'cpp': True, 'schema_json': sub.to_json(), 'schema': sub.to_prophy(), 'type': died_at,
+                               'tags': tagmap[died_at], 'rc': p.returncode, 'stderr': p.stderr.decode('utf-8', 'replace')[-600:]})
+            names = [n for n in names if n in got]
         for n in names:
             acc.ev()
             size, align, stiff = w.tinfo(n)
@@ -83,4 +100,12 @@ def run_shard(spec):
             if stiff == S.FIXED_S and g[1] != size:
                 acc.violation(PROP, 'cpp-raw-sizeof', witness())
             acc.count('cpp_constants_checked')
+            if stiff == S.FIXED_S and n in enc:
+                if CC.reaches_misaligned_optional(sch, w, n):
+                    acc.count('known_finding_types_not_judged')
+                elif enc[n] != (size, size):
+                    acc.violation(PROP, 'cpp-encoding-of-a-fixed-type-has-another-length',
+                                  witness(encode_size=enc[n][0], get_byte_size=enc[n][1]))
+                else:
+                    acc.count('cpp_fixed_encodings_measured')
     return acc.done()
